@@ -102,6 +102,13 @@ func (o Op) String() string {
 		}
 		sort.Strings(ks)
 		return "write " + strings.Join(ks, " ")
+	case "opaque-write":
+		var ks []string
+		for f, c := range o.Set {
+			ks = append(ks, f+"={"+strings.ReplaceAll(strings.TrimSpace(c), "\n", ",")+"}")
+		}
+		sort.Strings(ks)
+		return "recreate-directory(opaque) " + strings.Join(ks, " ")
 	case "delete", "delete-parent":
 		return o.Kind + " " + o.File
 	}
@@ -154,6 +161,22 @@ func entriesFor(o Op, idx int) []imgkit.Entry {
 		}
 		sort.Strings(fs)
 		for _, f := range fs {
+			es = append(es, imgkit.File(f, o.Set[f]))
+		}
+		return es
+	case "opaque-write":
+		// the directory is re-created: an opaque marker hides what lower layers put there, the
+		// layer's own files are added (rm -rf dir && mkdir dir && write)
+		var es []imgkit.Entry
+		var fs []string
+		for f := range o.Set {
+			fs = append(fs, f)
+		}
+		sort.Strings(fs)
+		for i, f := range fs {
+			if i == 0 {
+				es = append(es, imgkit.Opaque(strings.Split(f, "/")[0]))
+			}
 			es = append(es, imgkit.File(f, o.Set[f]))
 		}
 		return es
@@ -222,12 +245,51 @@ func verdict(ops []Op, exs []*listEx, files []string) (key string, stateKey stri
 	// brute-force oracle: independent extraction of every file from every view
 	present := make([]map[pkgKey]bool, len(cls))
 	var sk strings.Builder
+	// the history's own account of each file (what the layers wrote), independent of the views
+	hist := map[string]string{}
 	for i, cl := range cls {
 		present[i] = map[pkgKey]bool{}
 		fmt.Fprintf(&sk, "|%v", ops[i].Kind == "empty")
+		switch ops[i].Kind {
+		case "write":
+			for f, c := range ops[i].Set {
+				hist[f] = c
+			}
+		case "opaque-write":
+			for f := range hist {
+				delete(hist, f) // all package files live in the re-created directory
+			}
+			for f, c := range ops[i].Set {
+				hist[f] = c
+			}
+		case "delete":
+			delete(hist, ops[i].File)
+		case "delete-parent":
+			top := strings.Split(ops[i].File, "/")[0] + "/"
+			for f := range hist {
+				if strings.HasPrefix(f, top) {
+					delete(hist, f)
+				}
+			}
+		}
+		for _, f := range files {
+			// the view after layer i must show exactly what the history up to layer i says
+			wantData, wantThere := hist[f]
+			gotData, gotThere := "", false
+			if fh, err := cl.FS().Open(f); err == nil {
+				if _, serr := fh.Stat(); serr == nil {
+					b, _ := io.ReadAll(fh)
+					gotData, gotThere = string(b), true
+				}
+				fh.Close()
+			}
+			if gotThere != wantThere || gotData != wantData {
+				return "view-disagrees-with-history", sk.String(), fmt.Sprintf("view after layer %d: %s present=%v %q, the history says present=%v %q", i, f, gotThere, gotData, wantThere, wantData), 0
+			}
+		}
 		for _, f := range files {
 			inDiff := false
-			if ops[i].Kind == "write" {
+			if ops[i].Kind == "write" || ops[i].Kind == "opaque-write" {
 				_, inDiff = ops[i].Set[f]
 			}
 			var data []byte
@@ -338,6 +400,9 @@ type phase struct {
 	depth int
 	exs   []*listEx
 	bad   bool // the alphabet also has a write of a version the extractor fails on
+	// opaque: the alphabet also has "re-create the directory" layers (opaque marker + the file): they
+	// act on the views from that layer on and must leave earlier views alone
+	opaque bool
 }
 
 func bfs(r *ev.Run, ph phase) (complete bool, maxDepth int) {
@@ -345,6 +410,13 @@ func bfs(r *ev.Run, ph phase) (complete bool, maxDepth int) {
 	if ph.bad {
 		for _, f := range ph.files {
 			ops = append(ops, Op{Kind: "write", Set: map[string]string{f: unparsable + "\nA 1\n"}})
+		}
+	}
+	if ph.opaque {
+		for _, f := range ph.files {
+			for _, sub := range subsets(ph.pool) {
+				ops = append(ops, Op{Kind: "opaque-write", Set: map[string]string{f: content(sub)}})
+			}
 		}
 	}
 	type state struct{ hist []Op }
@@ -442,17 +514,18 @@ func main() {
 		os.Exit(0)
 	}
 	phases := []phase{
-		{"one-file", []string{"etc/f.list"}, []string{"A 1", "B 2"}, ev.Pick(r, 5, 7), one, false},
+		{"one-file", []string{"etc/f.list"}, []string{"A 1", "B 2"}, ev.Pick(r, 5, 7), one, false, false},
 		// the same package name in two versions: an in-place upgrade / downgrade of one package
-		{"one-file-two-versions", []string{"etc/f.list"}, []string{"A 1", "A 2"}, ev.Pick(r, 5, 6), one, false},
-		{"two-files", []string{"etc/f.list", "etc/g.list"}, []string{"A 1", "B 2"}, ev.Pick(r, 3, 5), one, false},
-		{"one-file-two-extractors", []string{"etc/f.list"}, []string{"A 1", "B 2"}, ev.Pick(r, 4, 5), two, false},
+		{"one-file-two-versions", []string{"etc/f.list"}, []string{"A 1", "A 2"}, ev.Pick(r, 5, 6), one, false, false},
+		{"two-files", []string{"etc/f.list", "etc/g.list"}, []string{"A 1", "B 2"}, ev.Pick(r, 3, 5), one, false, false},
+		{"one-file-two-extractors", []string{"etc/f.list"}, []string{"A 1", "B 2"}, ev.Pick(r, 4, 5), two, false, false},
 		// a layer may hold a version of the file on which extraction FAILS: that view has no package,
 		// so the layer that repairs the file introduces it
-		{"one-file-with-unparsable-version", []string{"etc/f.list"}, []string{"A 1"}, ev.Pick(r, 5, 6), one, true},
+		{"one-file-with-unparsable-version", []string{"etc/f.list"}, []string{"A 1"}, ev.Pick(r, 5, 6), one, true, false},
+		{"one-file-directory-recreated", []string{"etc/f.list"}, []string{"A 1", "B 2"}, ev.Pick(r, 4, 5), one, false, true},
 	}
 	if r.Thorough() {
-		phases = append(phases, phase{"one-file-three-packages", []string{"etc/f.list"}, []string{"A 1", "B 2", "C 3"}, 5, one, false})
+		phases = append(phases, phase{"one-file-three-packages", []string{"etc/f.list"}, []string{"A 1", "B 2", "C 3"}, 5, one, false, false})
 	}
 	allComplete := true
 	bounds := map[string]int{}
@@ -474,8 +547,8 @@ func main() {
 	}
 	os.RemoveAll(base)
 	r.Set("depth_completed_per_phase", bounds)
-	r.Assume("the oracle extracts each file independently from the implementation's own image-up-to-layer views (the property is stated over them); the views themselves are C04's subject")
-	r.Finish("BFS over layer histories: per layer one of {touch unrelated file, empty history entry, write file with each subset of the package pool, delete file (whiteout), delete parent directory}; phases: one file x 2 packages, one file x 2 versions of one package, two files (same package in both = same PURL at two locations), one file read by two extractors, one file with a version on which extraction fails, (thorough) one file x 3 packages; plus every one-file history of depth <=3/4 with one surplus history entry that is not flagged empty (inconsistent history: numbering and presence of the command are don't-care, but diff id, index in the implementation's own chain and the identity of a reported command are checked); every history rebuilt as a real image, scanned by ScanContainer and compared with brute-force attribution; states = distinct (views, diffs) keys, transitions = histories executed, non-trivial = states of depth >=3 reporting >=1 package", allComplete)
+	r.Assume("the oracle extracts each file independently from the image-up-to-layer views (the property is stated over them); since round 10 every view is first compared with the history's own account of the package files (what the layers wrote, deleted, re-created), so a view that shows a file the history does not is reported here too (the full view semantics remain C04's subject)")
+	r.Finish("BFS over layer histories: per layer one of {touch unrelated file, empty history entry, write file with each subset of the package pool, delete file (whiteout), delete parent directory}; phases: one file x 2 packages, one file x 2 versions of one package, two files (same package in both = same PURL at two locations), one file read by two extractors, one file with a version on which extraction fails, one file whose directory is re-created by layers with an opaque marker, (thorough) one file x 3 packages; plus every one-file history of depth <=3/4 with one surplus history entry that is not flagged empty (inconsistent history: numbering and presence of the command are don't-care, but diff id, index in the implementation's own chain and the identity of a reported command are checked); every history rebuilt as a real image, scanned by ScanContainer and compared with brute-force attribution; states = distinct (views, diffs) keys, transitions = histories executed, non-trivial = states of depth >=3 reporting >=1 package", allComplete)
 }
 
 // phantomVerdict: histories that are inconsistent with the layer list (one surplus entry that is not
